@@ -85,9 +85,11 @@ func (e *SpecEnv) resolveType(s string) types.Type {
 	pkg := e.scopePkg()
 	if i := strings.Index(s, "."); i >= 0 {
 		pn, tn := s[:i], s[i+1:]
-		if p := e.f.vc.eng.typesPkgByName(pn); p != nil {
+		for _, p := range e.f.vc.eng.typesPkgsByName(pn) {
 			if o := p.Scope().Lookup(tn); o != nil {
-				return o.Type()
+				if _, ok := o.(*types.TypeName); ok {
+					return o.Type()
+				}
 			}
 		}
 		return nil
@@ -120,6 +122,7 @@ func (e *SpecEnv) eval(x Expr, cur, old *State) Val {
 	case *EInt:
 		return scalar(intT, IntT(n.V))
 	case *EStr:
+		vc.lits[n.V] = true
 		return scalar(strT, StrT(n.V))
 	case *EBool:
 		return scalar(boolT, BoolT(n.V))
@@ -469,6 +472,15 @@ func (e *SpecEnv) callExpr(n *ECall, cur, old *State) Val {
 		case "preexisting":
 			v := e.eval(n.Args[0], cur, old)
 			return scalar(boolT, And(Gt(v.L[0], Zero), Lt(v.L[0], e.freshBase())))
+		case "proj":
+			v := e.eval(n.Args[0], cur, old)
+			tt, ok := v.T.(*types.Tuple)
+			ix, ok2 := n.Args[1].(*EInt)
+			if !ok || !ok2 || int(ix.V) >= tt.Len() {
+				return e.fail("proj(tuple, index)")
+			}
+			lo, hi := tupleRange(tt, int(ix.V))
+			return Val{T: tt.At(int(ix.V)).Type(), L: v.L[lo:hi]}
 		case "hasPrefix":
 			a := e.eval(n.Args[0], cur, old)
 			b := e.eval(n.Args[1], cur, old)
@@ -577,6 +589,9 @@ func (e *SpecEnv) goCall(fn *ssa.Function, args []Expr, cur, old *State) Val {
 	}
 	if e.f.depth >= maxInlineDepth {
 		return e.fail("spec call depth exceeded")
+	}
+	if len(e.bound) > 0 {
+		return e.fail("call of Go function %s under a quantifier is not supported (use a lemma with leading forall)", fn.Name())
 	}
 	vc.noSafe++
 	saved := vc.classes
